@@ -256,6 +256,12 @@ Proof.
   left. split; [assumption|reflexivity].
 Qed.
 
+(* the timeout handler reads worker_init_timeout / worker_exit_timeout from the POOL-side copy of the map parameters, the
+   workers stamp their phases according to THEIR copy: after every history the two agree whenever workers are alive *)
+Theorem pool_and_workers_agree l k h :
+  let s := hstate (hinit l k) h in alive s = true -> p_params s = Some (w_params s).
+Proof. intros s Ha. assert (H : HI s) by (apply hstate_HI; apply hinit_HI). destruct H as (_ & _ & _ & H). exact (H Ha). Qed.
+
 (* the same after a failure of the APPLY phase that stops the workers (worker_init / worker_exit raising or timing
    out while apply tasks are served): the next call or apply_async cleans up first *)
 Theorem post_apply_failure_fresh l k h mp later :
